@@ -527,7 +527,7 @@ func NewLockCommandDataSetKV(data map[string][]byte) *LockCommandData {
 	buf[0], buf[1], buf[2], buf[3] = byte(dataLen), byte(dataLen>>8), byte(dataLen>>16), byte(dataLen>>24)
 	buf[4], buf[5] = (LOCK_DATA_STAGE_CURRENT<<6)|LOCK_DATA_COMMAND_TYPE_SET, LOCK_DATA_FLAG_VALUE_TYPE_KV
 	for key, value := range data {
-		keyLen := len(value)
+		keyLen := len(key)
 		buf[i], buf[i+1], buf[i+2], buf[i+3] = byte(keyLen), byte(keyLen>>8), byte(keyLen>>16), byte(keyLen>>24)
 		i += 4
 		i += copy(buf[i:], key)
